@@ -50,6 +50,11 @@ var c12Payloads = []string{"", "x", "a\r\nb", "\r\n", "\x00", "\x00lead", "trail
 	strings.Repeat("p", 1023), strings.Repeat("q", 1024), strings.Repeat("r", 1025), strings.Repeat("s", 8150), strings.Repeat("t", 8191), strings.Repeat("u", 8192), strings.Repeat("v", 8193), strings.Repeat("w", 16384), "\xff\xfe binary"}
 
 func genC12(r *Rng, tier string, idx int) *Plan {
+	if idx%8 == 4 {
+		// connections issuing SELECT/SWAPDB/FLUSH*/HELLO and data commands concurrently, scheduled by the dice at
+		// keyspace, store-lock and connection-table-lock granularity: every command must be answered, no deadlock
+		return genConnConc(r, tier, &Plan{Knobs: map[string]int64{}, SKnobs: map[string]string{}})
+	}
 	switch idx % 4 {
 	case 1:
 		return genC12Stream(r, tier)
@@ -78,6 +83,8 @@ func inputClass(a []string) string {
 
 func runC12(t *testing.T, p *Plan) *Outcome {
 	switch p.Profile {
+	case "conn":
+		return runConcCore(t, p, "C12")
 	case "stream":
 		return runC12Stream(t, p)
 	case "garbage":
